@@ -41,7 +41,9 @@ var oraclesFor = map[string]Oracles{
 
 type runner func(t TB, p *Program)
 
-var runners = map[string]runner{}
+var runners = map[string]runner{
+	"C14": func(t TB, p *Program) { RunC14(t, p) },
+}
 
 func replayProgram(t TB, p *Program) {
 	if r, ok := runners[p.Prop]; ok {
